@@ -296,6 +296,21 @@ theorem C12_scripted_frame (scripts : List Script) (sc : Script) (c : Nat) (inne
   refine ⟨_, this, rfl, rfl, rfl, rfl, ?_⟩
   exact C12_untouched c sc.ops (req.headers, req.ext) k hk
 
+/-- The same, as the oracle judges it on an observation: `Spec.Interceptor.untouchedOk` holds of
+the original headers and the headers the wrapped service saw, with "touched" = mentioned by the
+script. -/
+theorem C12_scripted_frame_spec (count : Nat) (ops : List Op) (md : Hdrs) (x : Ext) :
+    Spec.Interceptor.untouchedOk (fun k => ops.any (Op.mentions k)) md (applyOps count ops (md, x)).1 = true := by
+  simp only [Spec.Interceptor.untouchedOk, List.all_eq_true, Bool.or_eq_true, beq_iff_eq]
+  intro k _
+  cases h : ops.any (Op.mentions k)
+  · right
+    apply C12_untouched count ops (md, x) k
+    intro op hop
+    have := List.any_eq_false.mp h op hop
+    simpa using this
+  · left; rfl
+
 /-- What the interceptor *does* change arrives as changed: after a script ending in an insert /
 append / remove of `n`, the wrapped service sees under `n` exactly `[v]` / the previous values
 followed by `v` / nothing. -/
@@ -352,6 +367,23 @@ theorem C12_sequence (f : Icpt σ) (inner : Inner ι β ρ ε) (s : σ) (i : ι)
         have := ih s' i
         rw [h1, h2, h3]
         simp [this.1, this.2]
+
+/-- Every element of a sequence run *is* a single call (from the states reached so far), so the
+single-call theorems (`C12_accept`, `C12_reject`, `C12_response_passthrough`) apply to each call
+of any sequence. -/
+theorem C12_sequence_each (f : Icpt σ) (inner : Inner ι β ρ ε) (s : σ) (i : ι) (reqs : List (Request β))
+    (k : Nat) (hk : k < reqs.length) :
+    ∃ sk ik, (runCalls f inner s i reqs).2.2[k]? =
+      some ((call f inner sk ik reqs[k]).innerSaw, (call f inner sk ik reqs[k]).out) := by
+  induction reqs generalizing s i k with
+  | nil => cases hk
+  | cons r rs ih =>
+    cases k with
+    | zero => exact ⟨s, i, by simp [runCalls]⟩
+    | succ k =>
+      have hk' : k < rs.length := by simpa using hk
+      obtain ⟨sk, ik, h⟩ := ih (call f inner s i r).icpt (call f inner s i r).inner k hk'
+      exact ⟨sk, ik, by simpa [runCalls] using h⟩
 
 /-! ### the `tonic::Request` ⇄ `http::Request` conversions used on the way (request.rs) -/
 
